@@ -19,6 +19,8 @@ def obligations(tier):
     g4 = S.G4()
     obs.append(S.SOb('C02.valid[G4,n=2,tags=2,nbest=%d]' % (2 if q else 3), g4, 2, ([(1, 0)] if q else ()), pruning=2, penalty='sym', nbest=(2 if q else 3)))
     obs.append(S.SOb('C02.valid[G4,n=2,tags=2,nbest=1,prune=1]', g4, 2, pruning=1, penalty='sym'))
+    obs.append(S.SOb('C02.valid[G6,n=1,tags=4,prune=2]', S.G6(), 1, pruning=2, penalty='sym'))
+    obs.append(S.SOb('C02.valid[G5,n=2,tags=2,prune=1]', S.G5(True), 2, pruning=1, penalty='0'))
     obs.append(S.SOb('C02.valid[G6,n=1,tags=4,nbest=2]', S.G6(), 1, ([(0, 3)] if q else ()), pruning=4, penalty='sym', nbest=2))
     obs.append(S.SOb('C02.valid[G5,n=2,tags=2,nbest=2]', S.G5(True), 2, pruning=2, penalty='0', nbest=2))
     obs.append(S.SOb('C02.valid[G3c,n=2,tags=1]', S.G3(True), 2, S.one_tag(2, 2), pruning=1, penalty='sym'))
@@ -35,5 +37,5 @@ def obligations(tier):
 
 
 def main(tier):
-    return S.run_search_check('C02', tier, obligations(tier), ('C02.',), FUNCTIONS, BOUNDS[tier], OUTSIDE, ASSUMPTIONS,
+    return S.run_search_check('C02', tier, obligations(tier), ('C02.', 'C16.leaf-outside-beam'), FUNCTIONS, BOUNDS[tier], OUTSIDE, ASSUMPTIONS,
                               records_for_validation=True, record_every=1)
